@@ -9,4 +9,11 @@ PROP=$1
 TIER=${2:-${VERIF_TIER:-quick}}
 [ $# -ge 2 ] && shift 2 || shift 1
 (cd "$HERE/checker" && go build -o "$HERE/bin/pvcheck" .) || { echo "cannot build the checker"; exit 2; }
-exec "$HERE/bin/pvcheck" -repo "${VERIF_REPO:-/repo}" -out "$HERE" -property "$PROP" -tier "$TIER" "$@"
+set +e
+"$HERE/bin/pvcheck" -repo "${VERIF_REPO:-/repo}" -out "$HERE" -property "$PROP" -tier "$TIER" "$@"
+rc=$?
+if [ "$TIER" = thorough ] && [ -z "$VERIF_NO_SELFVAL" ]; then
+  # informational both-ways validation of the checker against the seeded / refactoring corpus (scratch copies, removed afterwards)
+  python3 "$HERE/selfval.py" "$PROP" || true
+fi
+exit $rc
